@@ -307,6 +307,17 @@ func (d *dhcpRun) history() {
 			if id := d.clientID(cl); id != nil {
 				q.Options = append(q.Options, refdec.DHCPOpt{Code: 61, Data: id})
 			}
+			if (step+int(d.idx))%5 == 1 {
+				// a network-booting client: the BOOTP server name and boot file fields of its request are in use, here to their
+				// last byte (no terminating NUL fits). Whatever the server answers is its own message, not an echo of these
+				for k := range q.SName {
+					q.SName[k] = 's'
+				}
+				for k := range q.File {
+					q.File[k] = "pxelinux/"[k%9]
+				}
+				c.Obs("requests_with_full_sname_and_file_fields", 1)
+			}
 			if hn := d.hostName(cl, step); hn != "" {
 				q.Options = append(q.Options, refdec.DHCPOpt{Code: 12, Data: []byte(hn)})
 				c.Obs("messages_with_a_host_name_option", 1)
